@@ -58,6 +58,41 @@ impl Database {
             bail!("database is closed");
         }
 
+        // Lock order of every statement: file manager, table storage, WAL. A checkpoint that
+        // holds the WAL while it waits for the file manager or for a table deadlocks with an
+        // autocommit statement that holds those and waits for the WAL to log its pages.
+        self.ensure_file_manager()?;
+        let mut file_manager_guard = self.shared.file_manager.write();
+
+        let table_ids = self.shared.dirty_tracker.all_dirty_table_ids();
+        let table_infos: Vec<(u32, String, String)> = {
+            let lookup = self.shared.table_id_lookup.read();
+            table_ids
+                .iter()
+                .filter_map(|&table_id| {
+                    lookup
+                        .get(&table_id)
+                        .map(|(s, t)| (table_id, s.clone(), t.clone()))
+                })
+                .collect()
+        };
+        let storage_arcs: Vec<_> = match file_manager_guard.as_mut() {
+            Some(file_manager) => table_infos
+                .iter()
+                .filter_map(|(table_id, schema_name, table_name)| {
+                    let storage_arc = file_manager.table_data(schema_name, table_name).ok()?;
+                    Some((*table_id, schema_name, table_name, storage_arc))
+                })
+                .collect(),
+            None => Vec::new(),
+        };
+        let storages: Vec<_> = storage_arcs
+            .iter()
+            .map(|(table_id, schema_name, table_name, storage_arc)| {
+                (*table_id, schema_name, table_name, storage_arc.read())
+            })
+            .collect();
+
         let mut wal_guard = self.shared.wal.lock();
         let wal = match wal_guard.as_mut() {
             Some(w) => w,
@@ -77,52 +112,30 @@ impl Database {
                 wal_truncated: false,
             });
         }
-        let table_ids = self.shared.dirty_tracker.all_dirty_table_ids();
 
-        self.ensure_file_manager()?;
-
-        let mut file_manager_guard = self.shared.file_manager.write();
-        let file_manager = match file_manager_guard.as_mut() {
-            Some(fm) => fm,
-            None => {
-                self.shared.dirty_tracker.clear_all();
-                return Ok(CheckpointInfo {
-                    frames_checkpointed: 0,
-                    wal_truncated: false,
-                });
-            }
-        };
-
-        let table_infos: Vec<(u32, String, String)> = {
-            let lookup = self.shared.table_id_lookup.read();
-            table_ids
-                .iter()
-                .filter_map(|&table_id| {
-                    lookup
-                        .get(&table_id)
-                        .map(|(s, t)| (table_id, s.clone(), t.clone()))
-                })
-                .collect()
-        };
+        if file_manager_guard.is_none() {
+            self.shared.dirty_tracker.clear_all();
+            return Ok(CheckpointInfo {
+                frames_checkpointed: 0,
+                wal_truncated: false,
+            });
+        }
 
         let mut total_frames = 0u32;
-        for (table_id, schema_name, table_name) in &table_infos {
-            if let Ok(storage_arc) = file_manager.table_data(schema_name, table_name) {
-                let storage = storage_arc.read();
-                let frames = WalStoragePerTable::flush_wal_for_table(
-                    &self.shared.dirty_tracker,
-                    &storage,
-                    wal,
-                    *table_id,
+        for (table_id, schema_name, table_name, storage) in &storages {
+            let frames = WalStoragePerTable::flush_wal_for_table(
+                &self.shared.dirty_tracker,
+                storage,
+                wal,
+                *table_id,
+            )
+            .wrap_err_with(|| {
+                format!(
+                    "failed to flush dirty pages for table {}.{}",
+                    schema_name, table_name
                 )
-                .wrap_err_with(|| {
-                    format!(
-                        "failed to flush dirty pages for table {}.{}",
-                        schema_name, table_name
-                    )
-                })?;
-                total_frames += frames;
-            }
+            })?;
+            total_frames += frames;
         }
 
         let current_offset = wal.current_offset();
